@@ -168,6 +168,9 @@ fn case(t0: &mut Tape, w: &Worker) -> CaseResult {
     }
     let got_codes: BTreeSet<String> = es["unique_error_codes"].as_array().map(|a| a.iter().filter_map(|x| x.as_str().map(String::from)).collect()).unwrap_or_default();
     chk("unique_error_codes", json!(got_codes), json!(codes));
+    // distinct codes: every code once
+    let listed_codes = es["unique_error_codes"].as_array().map(|a| a.len()).unwrap_or(0);
+    chk("unique_error_codes(entries, each code once)", json!(listed_codes), json!(got_codes.len()));
     // analysed-packet statistics
     let analysing = mode != SMode::Write;
     let hbfs = if analysing { analysed.iter().filter(|r| r.stop_bit == 1).count() } else { 0 };
